@@ -1,0 +1,43 @@
+//go:build verif
+
+package core
+
+import (
+	"github.com/jsightapi/jsight-api-go-library/directive"
+)
+
+// Read-only accessors used by the /verif correspondence harness.  Compiled only
+// with `-tags verif`.
+
+func VerifValidateIncludeFileName(s string) error { return validateIncludeFileName(s) }
+
+func VerifDescription(b []byte) ([]byte, error) { return description(b) }
+
+func (core *JApiCore) VerifDirectives() []*directive.Directive { return core.directives }
+
+func (core *JApiCore) VerifDirectivesWithPastes() []*directive.Directive {
+	return core.directivesWithPastes
+}
+
+// VerifScanOnly runs the project scan stage alone.
+func (core *JApiCore) VerifScanOnly() error {
+	if je := core.scanProject(); je != nil {
+		return je
+	}
+	return nil
+}
+
+// VerifCompileCoreMacros runs macro collection, recursion check and paste
+// expansion (the first three steps of compileCore) after VerifScanOnly.
+func (core *JApiCore) VerifExpandOnly() error {
+	if je := core.collectMacro(); je != nil {
+		return je
+	}
+	if je := core.checkMacroForRecursion(); je != nil {
+		return je
+	}
+	if je := core.processPaste(); je != nil {
+		return je
+	}
+	return nil
+}
